@@ -259,6 +259,12 @@ RAISERS.update(_builtin_exception_raisers())
 SYNTAX_TEXT = ['{"jsonrpc":"2.0","id":1,"result":{}}', '{"jsonrpc":"2.0","id":1,"error":{"code":-32601,"message":"x"}}', "[NaN]", ":Infinity,",
                "values=[1.0, NaN]", '\n{"id":1}', "data: x", "event: message", "id: 1", "retry: 1", ":", "{}", "[]", "null", "true",
                '"', '\\"', "}{", '{"a":{"a":{"a":1}}}', "a\n\ndata: y"]
+# size x text edge: LONG texts (beyond any clipping budget) that also contain a lone surrogate, a non-BMP character, NUL,
+# multi-byte characters at every cut position — for every string that can end up in an error message
+EDGE_LONG = ["a" * 600 + "\udc80", "\udc80" * 700, "x" * 511 + "\ud800" + "y" * 20, "x" * 5000 + "\udfff", "\U0001f600" * 300,
+             "\x00" * 600, "\u00e9" * 2100, "a" * 2046 + "\u20ac" * 3, "z" * 2049, "\ud83d" + "q" * 3000, "\u2028" * 800,
+             "k" * 127 + "\udc80" + "k" * 128, "k" * 255 + "\U0001f600\udc80" + "k" * 300, "k" * 1023 + "\x00\udc80" + "k" * 1100]
+RAISERS.update({"edge-long/%d" % k: _raise(lambda t=t: RuntimeError(t)) for k, t in enumerate(EDGE_LONG)})
 RAISERS.update({"syntax/%d" % k: _raise(lambda t=t: ValueError(t)) for k, t in enumerate(SYNTAX_TEXT)})
 
 
@@ -608,6 +614,13 @@ def server(variant=None, fresh=False):
 def make_envelope(msg, env):
     from chuk_mcp.protocol.messages import json_rpc_message as J
 
+    if env == "dict":
+        return dict(msg)  # a plain dict handed to the dispatcher as it is
+    if env == "typed-response":
+        # the typed RESPONSE classes, whatever the message says: nothing a dispatcher should answer or choke on
+        if "error" in msg and isinstance(msg["error"], dict):
+            return J.JSONRPCError(jsonrpc="2.0", id=msg.get("id", 0), error=msg["error"])
+        return J.JSONRPCResponse(jsonrpc="2.0", id=msg.get("id", 0), result=msg.get("result", {}))
     if env == "parse":
         return J.parse_message(dict(msg))
     if env == "typed":
@@ -790,7 +803,7 @@ SERVER_SPECS = {None: server_spec(None), "overrides": server_spec("overrides"), 
 
 
 def model_line(case, obs):
-    if obs["parse"] != "ok" or case.get("env") == "list" or "seq" in case or "conc" in case:
+    if obs["parse"] != "ok" or case.get("env") in ("list", "dict", "typed-response") or "seq" in case or "conc" in case:
         return None
     sid = obs.get("seen_id")
     if sid is None:
